@@ -32,6 +32,8 @@ def gen_cases(tier, seed):
 
 def make_series(shape, n, rng, positive=False):
     scale = 10.0 ** rng.integers(-6, 7)
+    if positive and rng.random() < 0.3:
+        scale = 10.0 ** rng.integers(-300, -12)   # strictly positive but far below machine epsilon: the logarithm is still well defined
     t = np.arange(n, dtype=float)
     if shape == "constant":
         y = np.full(n, float(rng.normal()))
